@@ -30,6 +30,9 @@ struct C01Monitor : Monitor {
     cheap.point_meet = false;
     cheap.export_disj = false;
     full_checks_per_point = 6;
+    const DomainInfo *di = find_domain(c.domain);
+    if (di && (di->caps & CAP_BV))
+      full.bv = cheap.bv = true;
   }
   AbsVal &get(std::map<std::string, AbsVal::P> &m, const std::string &l, bool is_pre) {
     auto it = m.find(l);
@@ -93,6 +96,10 @@ Case gen_c01_like(const std::string &prop, Rng &r, const Tier &t,
     prof = GenConfig::NUMBOOL; // booleans are ignored soundly by purely numerical domains
   GenConfig gc = random_gen_config(r, prof, false);
   restrict_for_domain(gc, *di);
+  if (di->caps & CAP_BV) {
+    static const int ws[] = {4, 8, 8, 8, 16, 32, 32, 64};
+    gc.bv_width = ws[r.below(8)];
+  }
   if (prop == "C02" || prop == "C11")
     gc.n_asserts = std::max(gc.n_asserts, 2);
   c.prog = generate_program(r, gc);
@@ -373,6 +380,10 @@ Outcome check_c05a(const Case &c, Stats &st) {
 std::vector<std::string> num_domains(const Tier &t) {
   return domains_with(0, CAP_ARRAY | CAP_REGION | CAP_BV, !t.thorough);
 }
+// C13: the machine-integer domains under the BV profile of the machine
+std::vector<std::string> bv_domains(const Tier &) {
+  return domains_with(CAP_BV, CAP_ARRAY | CAP_REGION, false);
+}
 
 PropertyRegistrar reg_c01({"C01", "sim_prog",
                            [](Rng &r, const Tier &t, const std::vector<std::string> &d) {
@@ -384,6 +395,27 @@ PropertyRegistrar reg_c01({"C01", "sim_prog",
                            },
                            check_c01, num_domains});
 PropertyRegistrar reg_c02({"C02", "sim_prog", gen_c02, check_c02, num_domains});
+// C13 (program half): forward invariants and verdicts of the wrapped-interval
+// domain against executions under two's-complement semantics
+PropertyRegistrar reg_c13a({"C13a", "sim_prog",
+                            [](Rng &r, const Tier &t, const std::vector<std::string> &d) {
+                              Case c = gen_c01_like("C13", r, t, d);
+                              c.params.set("part", "invariants");
+                              add_alt_entry_and_assumptions(r, c);
+                              return c;
+                            },
+                            check_c01, bv_domains});
+PropertyRegistrar reg_c13b({"C13b", "sim_prog",
+                            [](Rng &r, const Tier &t, const std::vector<std::string> &d) {
+                              Case c = gen_c02(r, t, d);
+                              c.property = "C13";
+                              c.params.set("part", "verdicts");
+                              // KF9 (labels under use_refined_invariants) is a defect of the
+                              // refining analyser, not of the domain this property is about
+                              c.params.set("use_refined", 0);
+                              return c;
+                            },
+                            check_c02, bv_domains});
 PropertyRegistrar reg_c05a({"C05a", "sim_prog", gen_c05a, check_c05a, num_domains});
 
 } // namespace
